@@ -31,6 +31,13 @@ def rename_program(binary, ws, expected=None):
     if ent is None:
         return ['inverse-view oracle: %s' % err], 0, 0
     probs, acc, ref = invk.check_rename(o, ws, ent)
+    if expected is not None and not probs and len(ws.get('files', [])) == 1:
+        # the same program as a free-standing document that no package owns (loose .gleam file, untitled buffer)
+        text = ws['files'][0]['text']
+        ent2, err2 = invk.inverse_entries(o, {'text': text})
+        if ent2 is not None:
+            p2, a2 = invk.check_rename_loose(o, text, ent2)
+            probs += p2
     if expected is not None:
         # every occurrence the reference resolver binds to a local binder must be renameable (a valid fresh name is never refused there)
         for (f, s) in expected:
